@@ -403,6 +403,20 @@ Mutations(D) ==
          ELSE {})
         : i \in DimLines("MeshPart")}
 
+      \* partition attributes: level is a refinement level (>= 0), priority an integer
+      PtnAttr == UNION {{M("partition_level", "rep", i, R(SetAttr(L[i], "level", "-1")), "content", i),
+                         M("partition_level", "rep", i, R(SetAttr(L[i], "level", "x")), "content", i),
+                         M("partition_priority", "rep", i, R(SetAttr(L[i], "priority", "x")), "content", i),
+                         M("partition_size", "rep", i, R(SetAttr(L[i], "size", "x 1")), "content", i)} : i \in DimLines("Partition")}
+
+      \* chart attributes (Circle / Sphere): positive radius, midpoint with one number per world dimension
+      ChartAttr == UNION {{M("chart_radius", "rep", i, R(SetAttr(L[i], "radius", "0")), "grammar", i),
+                           M("chart_radius", "rep", i, R(SetAttr(L[i], "radius", "-1.5")), "grammar", i),
+                           M("chart_radius", "rep", i, R(SetAttr(L[i], "radius", "r")), "grammar", i),
+                           M("chart_midpoint", "rep", i, R(SetAttr(L[i], "midpoint", "0.25")), "grammar", i),
+                           M("chart_midpoint", "rep", i, R(SetAttr(L[i], "midpoint", "0.25 0.5 1 2")), "grammar", i)}
+                            : i \in {j \in 1..n : L[j].k = "leaf"}}
+
       \* index ranges
       DataIn(nm) == {j \in 1..n : L[j].k = "data" /\ L[j].name = nm}
       RepTok(i, t, s) == R([L[i] EXCEPT !.toks[t] = s])
@@ -447,7 +461,7 @@ Mutations(D) ==
                     : i \in DataIn("Topology"), t \in {1}}
   IN Trunc \cup DelData \cup DupData \cup DelOpen \cup DelLeaf \cup DelClose \cup Unknown \cup Unbal \cup Stray
      \cup MissAttr \cup ExtraAttr \cup ClosedMk \cup Counts \cup SizeLen \cup TopoDim \cup MapDim \cup AttrDim
-     \cup MeshType \cup RootType \cup PartAttr \cup TopoIdx \cup PatchIdx \cup MapIdx \cup MapMissing \cup Tokens \cup Garbage
+     \cup MeshType \cup RootType \cup PartAttr \cup PtnAttr \cup ChartAttr \cup TopoIdx \cup PatchIdx \cup MapIdx \cup MapMissing \cup Tokens \cup Garbage
 
 \* ---------------------------------------------------------------------------------------------------------------------
 \* behaviours: pick a document; (optionally) pick one mutation of it
